@@ -83,6 +83,10 @@ def plan(prop, tier, seed):
                 runs.append(("sexh1/3-pod", ["sexh", "1", "3"], {"VH_POD": "1"}))
                 runs.append(("sexh2/3-pod", ["sexh", "2", "3"], {"VH_POD": "1"}))
             if prop == "C12":
+                # the same tracked histories on the build of specs without `storage-event-control` (and without `parallel`)
+                runs.append(("np/sgen-tracked", ["sgen", str(seed * 1000 + 66), "400", "45", "tracked"]))
+                runs.append(("np/sgen-many", ["sgen", str(seed * 1000 + 67), "300", "45", "many"]))
+            if prop == "C12":
                 # the same tracked histories with a ZERO-SIZED component type in kind 6 (values always 0)
                 runs.append(("sgen-tracked-zst6", ["sgen", str(seed * 1000 + 77), "400", "45", "tracked"], {"VH_ZST6": "1"}))
                 runs.append(("sexh6/3-zst6", ["sexh", "6", "3"], {"VH_ZST6": "1"}))
@@ -104,6 +108,10 @@ def plan(prop, tier, seed):
                         runs.append((f"sexh{k}/4/{s}-pod", ["sexh", str(k), "4", str(s), "4"], {"VH_POD": "1"}))
             if prop == "C12":
                 for i in range(4):
+                    runs.append((f"np/sgen-tracked{i}", ["sgen", str(seed * 1000 + 66 + 2 * i), "2500", "90", "tracked"]))
+                    runs.append((f"np/sgen-many{i}", ["sgen", str(seed * 1000 + 67 + 2 * i), "2000", "90", "many"]))
+            if prop == "C12":
+                for i in range(4):
                     runs.append((f"sgen-tracked-zst6-{i}", ["sgen", str(seed * 1000 + 77 + i), "2500", "90", "tracked"], {"VH_ZST6": "1"}))
                 runs.append(("sexh6/3-zst6", ["sexh", "6", "3"], {"VH_ZST6": "1"}))
                 for s in range(4):
@@ -119,6 +127,19 @@ LEDGER = {"on": False}
 EXTRA_ENV = {}
 
 
+# binary of the run being reported (sequential phase): the all-features build, or — label `np/…` — the build of the same
+# harness against specs WITHOUT default features (harness/np: no `parallel`, no `storage-event-control`)
+ACTIVE_BIN = [None]
+
+
+def hb():
+    return ACTIVE_BIN[0] or vlib.hbin(BIN)
+
+
+def bin_of(label):
+    return vlib.hbin_np("h_world_np") if label.startswith("np/") else vlib.hbin(BIN)
+
+
 def henv(extra=None):
     e = dict(os.environ)
     if LEDGER["on"]:
@@ -128,13 +149,15 @@ def henv(extra=None):
 
 
 def env_header():
-    return [f"env {k}={v}" for k, v in EXTRA_ENV.items()]
+    np = ["build: np  (harness/np: specs built WITHOUT its default features — no `parallel`, no `storage-event-control`; replay uses that build)"] \
+        if ACTIVE_BIN[0] and "-np" in ACTIVE_BIN[0] else []
+    return np + [f"env {k}={v}" for k, v in EXTRA_ENV.items()]
 
 
 def run_one(args):
     label, tail = args[0], args[1]
     extra = args[2] if len(args) > 2 else {}
-    lines, hrc, err = vlib.pipe_to_driver([vlib.hbin(BIN)] + tail, env=henv(extra))
+    lines, hrc, err = vlib.pipe_to_driver([bin_of(label)] + tail, env=henv(extra))
     r = vlib.parse_driver(lines)
     r["label"], r["tail"], r["hrc"], r["err"], r["env"] = label, tail, hrc, err, extra
     return r
@@ -162,7 +185,7 @@ def run_script_ops(ops):
     path = os.path.join(vlib.TMP, f"script-{os.getpid()}-{time.time_ns()}.ops")
     with open(path, "w") as f:
         f.write("case s\n" + "\n".join(ops) + "\n")
-    lines, hrc, err = vlib.pipe_to_driver([vlib.hbin(BIN), "run", path], timeout=120, env=henv())
+    lines, hrc, err = vlib.pipe_to_driver([hb(), "run", path], timeout=120, env=henv())
     os.unlink(path)
     r = vlib.parse_driver(lines)
     r["hrc"] = hrc
@@ -171,7 +194,7 @@ def run_script_ops(ops):
 
 def case_ops(r, case_id):
     path = os.path.join(vlib.TMP, f"tr-{os.getpid()}-{time.time_ns()}.txt")
-    vlib.pipe_to_driver([vlib.hbin(BIN)] + r["tail"], keep=path, env=henv())
+    vlib.pipe_to_driver([hb()] + r["tail"], keep=path, env=henv())
     ops = vlib.extract_case(path, case_id)
     os.unlink(path)
     return ops
@@ -192,7 +215,7 @@ def search_from(prop, base_ops, tier, seed):
     found = None
     for tail in (["cont", path, depth], ["contgen", path, str(seed), ngen, "12"]):
         keep = os.path.join(vlib.TMP, f"cont-{os.getpid()}.txt")
-        lines, hrc, err = vlib.pipe_to_driver([vlib.hbin(BIN)] + tail, keep=keep, env=henv(),
+        lines, hrc, err = vlib.pipe_to_driver([hb()] + tail, keep=keep, env=henv(),
                                               timeout=240 if tier == "quick" else 1800)
         r = vlib.parse_driver(lines)
         mons, _ = relevant(prop, r)
@@ -221,6 +244,7 @@ def report_failures(prop, tier, seed, results):
             continue
         EXTRA_ENV.clear()
         EXTRA_ENV.update(r.get("env") or {})
+        ACTIVE_BIN[0] = bin_of(r["label"])
         if mons:
             m = mons[0]
             cid = vlib.field(m, "case")
@@ -299,7 +323,7 @@ def report_failures(prop, tier, seed, results):
             if r["hrc"] not in (0, None) and not r["hang"]:
                 keep = os.path.join(vlib.TMP, f"crash-{os.getpid()}.txt")
                 env = henv(); env["VH_EAGER"] = "1"
-                vlib.pipe_to_driver([vlib.hbin(BIN)] + r["tail"], keep=keep, env=env)
+                vlib.pipe_to_driver([hb()] + r["tail"], keep=keep, env=env)
                 cid, ops = vlib.last_case(keep) if os.path.exists(keep) else (None, [])
                 if os.path.exists(keep):
                     os.unlink(keep)
@@ -333,6 +357,8 @@ def check(prop, tier, seed, t0):
         print(f"VIOLATION property={prop} replay={path} no-failing-input-found")
         violations += 1
     ok, blog = vlib.build_harness([BIN])
+    if ok and any(r[0].startswith("np/") for r in plan(prop, tier, seed)):
+        ok, blog = vlib.build_harness_np()
     results = []
     if not ok:
         path = vlib.write_replay(prop, "build", ["the harness does not build against /repo's working tree, so the model cannot be tied to this code", blog])
@@ -343,6 +369,7 @@ def check(prop, tier, seed, t0):
             results = list(ex.map(run_one, plan(prop, tier, seed)))
         violations += report_failures(prop, tier, seed, results)
         EXTRA_ENV.clear()
+        ACTIVE_BIN[0] = None
     cs_stats = {}
     if ok and prop == "C08":
         # "... or added to a change set": the ledger of the changeset domain (instrumented amounts) belongs to C08 too
@@ -424,11 +451,16 @@ def replay(prop, path):
     if not ok:
         print(blog); return 2
     EXTRA_ENV.clear()
+    if "# build: np" in open(path).read():
+        okn, blogn = vlib.build_harness_np()
+        if not okn:
+            print(blogn); return 2
+        ACTIVE_BIN[0] = vlib.hbin_np("h_world_np")
     for l in open(path):
         if l.startswith("# env ") and "=" in l:
             k, v = l[6:].strip().split("=", 1)
             EXTRA_ENV[k] = v
-    lines, hrc, err = vlib.pipe_to_driver([vlib.hbin(BIN), "run", path], env=henv())
+    lines, hrc, err = vlib.pipe_to_driver([hb(), "run", path], env=henv())
     for l in lines:
         print(l)
     r = vlib.parse_driver(lines)
